@@ -5,6 +5,10 @@ import json, os, sys
 HERE = os.path.dirname(os.path.dirname(os.path.abspath(__file__)))
 
 CLAIMED = {
+ "C01": dict(
+   technique="string/enum/dynamic-type value sets over SSA (validator returns refined by path conditions, field-based store sets, caller arguments, forall-loop idiom) compared with the cases guarding every panicking default + module-wide division/modulo hazard analysis + recursion-guard idioms on reference-following recursions (in-use set, destroyed reference, set-guarded resolver) + nil-guard and discarded-ok contradiction rules + counted-loop recognition",
+   text="Decides structural necessary conditions of crash-freedom and termination of rendering: (R1) 15 panicking defaults over CSS keywords, enum constants and dynamic types cannot be reached by any value their producers can yield; (R2) no integer division or modulo in the module can see a zero divisor (5 named sites rest on list-length invariants); (R3) the five reference-following recursions (var(), <use> by id and by URL, href inheritance, counter-style fallback) are cycle-guarded; (R4) no dereference of the root's missing parent style and no discarded-ok nil dereference; (R5) the re-pagination loop is counted. Not decided and named in the evidence: 36 panicking defaults that rest on computed-value or box-class invariants, 70-odd internal invariant panics, index errors and nil dereferences in general, stack depth of structural recursions, progress of the page loop.",
+   ref="4 C01"),
  "C03": dict(
    technique="constant/ordering folding of the precedence and comparison functions over SSA + guarded-by (path-condition reachability) on every cascaded-style write + provenance of sheet origins",
    text="Decides structural necessary conditions of the cascade order on the type-checked source (precedence table, weight/specificity comparison on all orderings, guarded insertion, style-attribute weight, sheet order/origins, media filtering). Not a proof of the behavioural statement: selector matching and in-sheet source order are not decided.",
